@@ -87,7 +87,7 @@ func producerFirstBytes(f *ssa.Function) map[string]bool {
 func checkC02Dispatch(p *Prog, r *Report, md, ud, mr, mc *ssa.Function) {
 	// marshal side: case types
 	kinds := map[string]bool{}
-	eachInstr(md, func(ins ssa.Instruction) {
+	eachInstrOf(append([]*ssa.Function{md}, stringHelpers(md)...), func(ins ssa.Instruction) {
 		ta, ok := ins.(*ssa.TypeAssert)
 		if !ok || !ta.CommaOk {
 			return
@@ -187,7 +187,7 @@ func checkC02Dispatch(p *Prog, r *Report, md, ud, mr, mc *ssa.Function) {
 	}
 	// marshal side: nil data is the literal null
 	okNull := false
-	eachInstr(md, func(ins ssa.Instruction) {
+	eachInstrOf(append([]*ssa.Function{md}, stringHelpers(md)...), func(ins ssa.Instruction) {
 		if cv, ok := ins.(*ssa.Convert); ok {
 			if s, ok := constString(cv.X); ok && s == "null" {
 				okNull = true
@@ -968,7 +968,7 @@ func checkC02Flow(p *Prog, r *Report, md, ud *ssa.Function) {
 	// the data member is the marshaled primary data for each kind
 	{
 		kinds := map[string]bool{}
-		for _, o := range origins(unbox(dataStore.Value)) {
+		for _, o := range originsDeep(unbox(dataStore.Value)) {
 			switch x := o.(type) {
 			case *ssa.Call:
 				if sc := x.Common().StaticCallee(); sc != nil {
@@ -988,7 +988,7 @@ func checkC02Flow(p *Prog, r *Report, md, ud *ssa.Function) {
 					// a case listing several types keeps the interface value: every
 					// asserted type whose success edge reaches the call counts
 					if _, fl, ok := fieldLoad(arg); ok && fl == "Data" {
-						eachInstr(md, func(i2 ssa.Instruction) {
+						eachInstr(c.Parent(), func(i2 ssa.Instruction) {
 							ta, ok := i2.(*ssa.TypeAssert)
 							if !ok || !ta.CommaOk {
 								return
